@@ -303,30 +303,34 @@ def keyword_root_cause(err, wit_text, keywords, loc_re=r"^(\S+?):(\d+):(\d+): (?
     return None
 
 
-def signature(job, prefix, specific, closed=None):
-    """Violation signature.  Corpus and hand-written worlds pass on the pinned
-    tree, so their signatures are precise; failures on random adversarial worlds
-    carry a `random:` marker so that a listed finding about random worlds can
-    never mask a regression on the corpus.
+def signature(job, prefix, specific, named=False):
+    """Violation signature, or None when the failure must be reported as
+    inconclusive.
 
-    `closed`: for *compile-stage* failures on random worlds the pinned tree
-    already fails in an open-ended number of ways (the message of the first
-    compiler error is not a stable key), so the signature space is closed:
-    the named root causes in `closed`, `unescaped-keyword:uppercase-wit-id`,
-    `unescaped-keyword:lowercase`, else `unclassified`.  The full diagnostic
-    stays in the violation text and the replay file."""
-    if job.get("source") != "random":
+    * `named=True`: `specific` names a specific root cause (a bucket, an
+      unescaped keyword, a confirmed generator-temporary collision): the
+      signature is the same whatever world exhibited it.
+    * otherwise `specific` is only the normalised first diagnostic.  For corpus
+      files and hand-written worlds (which pass on the pinned tree) that is a
+      precise signature - the sharp gate.  For random adversarial worlds the
+      first compiler message is not a stable key and does not identify a
+      defect, so compile-stage failures there are *inconclusive* (None); the
+      diagnostics and the WIT are kept in the evidence file."""
+    if named or job.get("source") != "random":
         return prefix + specific
-    if closed is not None:
-        if specific == "unescaped-keyword:uppercase-wit-id" or specific in closed:
-            pass
-        elif specific.startswith("unescaped-keyword:"):
-            specific = "unescaped-keyword:lowercase"
-        elif specific.startswith("maybe-generator-temporary-collision"):
-            specific = "maybe-generator-temporary-collision"
-        else:
-            specific = "unclassified"
-    return prefix + "random:" + specific
+    return None
+
+
+def unclassified(rep, job, stage, what, detail):
+    """Record an unclassified compile-stage failure on a random world (inconclusive)."""
+    u = rep.extra.setdefault("unclassified_compile_failures", {"count": 0, "by_diagnostic": {}, "samples": []})
+    u["count"] += 1
+    k = normalise(what.split(": ", 1)[-1])
+    u["by_diagnostic"][k] = u["by_diagnostic"].get(k, 0) + 1
+    if len(u["samples"]) < 4:
+        u["samples"].append({"job": job["id"], "args": job["args"], "stage": stage, "diagnostic": what[:400], "compiler_output": detail[:1200],
+                             "wit": read_wit(job["wit"])[:6000]})
+    rep.inconc("%s: unclassified compile failure on a random adversarial world (diagnostics in coverage.unclassified_compile_failures)" % stage)
 
 
 def bucket(msg, buckets):
@@ -340,6 +344,33 @@ def bucket(msg, buckets):
 GENERATOR_TEMPORARIES = re.compile(
     r"(?<![\w-])(cleanup-list|ret-area|ptr\d*|len\d*|result\d*|vec\d*|base|array\d*|payload\d*|variant\d*|layout\d*|bytes\d*|"
     r"handle\d*|e\d*|t\d*|v\d*|l\d*|p\d*|option\d*|key\d*|map\d*|tuple\d*|flags\d*|addr\d*|arg\d+|ret|val|rep)(?![\w-])")
+
+def confirmed_temporary_collision(err, wit_text):
+    """A clash between a user name and a generator temporary is confirmed when an
+    identifier that (a) is a name written in the WIT (snake_case spelling) and
+    (b) has the shape of a generator-introduced local occurs in the source
+    excerpt of the first diagnostic.  Returns the identifier or None."""
+    wit_names = {m.group(0).lower().replace("-", "_") for m in GENERATOR_TEMPORARIES.finditer(wit_text)}
+    # single letters / `pN` are far too common to count as evidence
+    wit_names = {n for n in wit_names if len(n) > 2 and not re.fullmatch(r"[a-z]\d*", n)}
+    if not wit_names:
+        return None
+    excerpt = []
+    seen_error = False
+    for line in err.splitlines():
+        if re.match(r"error(\[E\d+\])?: ", line) or re.search(r": (fatal )?error: ", line):
+            if seen_error:
+                break
+            seen_error = True
+            continue
+        if seen_error and (re.match(r"\s*\d+\s*\|", line) or not line.startswith(" " * 12)):
+            excerpt.append(line)
+        if len(excerpt) > 12:
+            break
+    words = set(re.findall(r"[A-Za-z_][A-Za-z0-9_]*", "\n".join(excerpt)))
+    hit = sorted(wit_names & words)
+    return hit[0] if hit else None
+
 
 _RUST_VOCAB = re.compile(r"^(&|&mut |\*const |\*mut )?(wit_|_rt|into_|as_|from_|Vec|String|str|Box|Option|Result|BTreeMap|HashMap|AsI|AsF|Guest$|(Self|self|crate|super)$|u8|u16|u32|u64|i8|i16|i32|i64|f32|f64|usize|bool|char)")
 
@@ -455,7 +486,7 @@ def thorough_stride():
     return max(1, int(round(1.0 / sc))) if 0 < sc < 1 else 1
 
 
-def plan(backend, tier, seed, workroot, variants, n_random, profiles, corpus_variants="rotate", quick_corpus=None):
+def plan(backend, tier, seed, workroot, variants, n_random, profiles, corpus_variants="rotate", quick_corpus=None, directed=()):
     """Build the job list for a compile-the-output check.
 
     variants: [(key, [args])], first is the default.  profiles: list of
@@ -480,6 +511,10 @@ def plan(backend, tier, seed, workroot, variants, n_random, profiles, corpus_var
     for name, world, text in FIXED_WORLDS:
         p = materialise(workroot, "fixed-" + name, text)
         add("fixed", name, p, world, (), {"async": False, "error-context": False}, allkeys)
+    # directed worlds: one per named root cause, so that it is exhibited at every seed
+    for name, world, text, vkeys in directed:
+        p = materialise(workroot, "directed-" + name, text)
+        add("directed", name, p, world, (), {"async": False, "error-context": False}, vkeys or ["default"])
     entries = corpus()
     stats["corpus_entries"] = len(entries)
     for i, (name, path, cfg) in enumerate(entries):
